@@ -23,6 +23,7 @@ fn groups_for(prop: &str, ctx: &Ctx) -> Vec<Box<dyn Group>> {
         "C06" => vec![Box::new(c06::ListHeader), Box::new(c06::Negotiation::new())],
         "C03" | "C04" => vec![Box::new(c03::History)],
         "C05" => vec![Box::new(c05::Serve)],
+        "C13" => vec![Box::new(c13::Decisions)],
         _ => vec![],
     }
 }
